@@ -190,8 +190,8 @@ def param_rows(rng, k):
     """k unique parameter values: distinct integers plus a fractional part"""
     if k == 0:
         return {}
-    base = rng.permutation(np.arange(0, max(k, 2) + 2))[:k].astype(float)
-    t = base + rng.uniform(0.0, 0.2, k)
+    base = rng.permutation(np.arange(0, max(k, 2) + 2))[:k].astype(float) * 0.5
+    t = base + rng.uniform(0.0, 0.1, k)
     return {"t": [[float(np.float32(x))] for x in t]}
 
 
@@ -205,12 +205,14 @@ def gen_domain(rng, max_depth=2, dim=None, dep=None, k=None, allow=("bool", "pri
     envs = {kk: np.asarray(v, float).reshape(len(v), -1) for kk, v in rows.items()}
     nrows = max(k, 1)
     scale = float(rng.uniform(0.3, 2.0))
-    center = rng.uniform(-4, 4, dim)
+    center = rng.uniform(-3, 3, dim) * scale      # |offset| / size stays within the conditioning regime (3.1)
     move = None
     if dep:
         move = np.zeros(dim)
         # rigid co-motion, large enough that the regions of different rows are disjoint (pairing)
-        move[0] = scale * (9.0 if pairing else rng.uniform(0.5, 2.0))
+        # the regions of different parameter rows differ by at least 0.75 * scale (mis-pairing is observable)
+        # while max |coordinate| / size stays <= ~10 (float32 conditioning regime of DESIGN.md 3.1)
+        move[0] = scale * (1.5 if pairing else rng.uniform(0.5, 1.5))
     ctx = Ctx(rng, dep, k, move, dim)
     kind = str(rng.choice(allow))
     log = []
@@ -260,8 +262,8 @@ def gen_domain(rng, max_depth=2, dim=None, dep=None, k=None, allow=("bool", "pri
         dep = False
         if k > 0 and rng.random() < 0.5:
             # external parameter t shifts the second factor
-            bspec["lo"] = {"a": [bspec["lo"]], "terms": [{"var": "t", "col": 0, "kind": "lin", "coef": [4.0]}]}
-            bspec["hi"] = {"a": [bspec["hi"]], "terms": [{"var": "t", "col": 0, "kind": "lin", "coef": [4.0]}]}
+            bspec["lo"] = {"a": [bspec["lo"]], "terms": [{"var": "t", "col": 0, "kind": "lin", "coef": [2.0]}]}
+            bspec["hi"] = {"a": [bspec["hi"]], "terms": [{"var": "t", "col": 0, "kind": "lin", "coef": [2.0]}]}
             dep = True
     else:
         raise ValueError(kind)
